@@ -648,11 +648,13 @@ def rule_models_spare_endpoint_names(repo: Repo, rep, rule: str = "R20.13") -> N
 # ------------------------------------------------------------------------------------------------ R20.14 every signature builder de-collides argument names
 def rule_signature_builders_decollide(repo: Repo, rep, rule: str = "R20.14") -> None:
     """`EndpointParameterProcessor.process_parameters` makes the Python names of an operation's parameters unique (and keeps them apart from the body
-    argument).  A function that builds a signature from `op.parameters` on its own - `f"{sanitize_method_name(param.name)}: {type}"` appended to the
+    argument).  A class that builds a signature from `op.parameters` on its own - `f"{sanitize_method_name(param.name)}: {type}"` appended to the
     argument list in a loop over the parameters - has none of that: path `id` + query `id`, a header `Content-Type` next to the builder's own
     `content_type`, a query parameter `body` give the same argument twice (`ast.parse` accepts it, `compile()` / import does not).  Decided over
-    visit/endpoint: every loop over `<op>.parameters` that appends such a text tests the name against a collection of used names first."""
+    visit/endpoint, one instance per class (so that moving the loop between methods of the class does not change the finding): every loop over
+    `<op>.parameters` that appends such a text tests the name against a collection of used names first."""
     n = 0
+    per_owner: Dict[str, List] = {}
     for mn, mod in sorted(repo.modules.items()):
         if ".visit.endpoint" not in mn:
             continue
@@ -671,13 +673,19 @@ def rule_signature_builders_decollide(repo: Repo, rep, rule: str = "R20.14") -> 
                     continue
                 n += 1
                 probed = any(isinstance(x, ast.Compare) and len(x.ops) == 1 and isinstance(x.ops[0], (ast.In, ast.NotIn)) and isinstance(x.left, ast.Name) and x.left.id in derived for x in ast.walk(lp))
-                sub = f"{mod.relpath}:{q} argument names built from `{norm(lp.iter)}`"
-                if probed:
-                    rep.ok(rule, sub, "the derived name is tested against the names already used before it is appended", fn.loc(lp))
-                else:
-                    rep.violation(rule, sub, f"{fn.fq}|signature-builder-without-decollision",
-                                  f"`{norm(apps[0])[:70]}`: the argument name is the sanitised parameter name as it is - two parameters that sanitise alike (path `id` + query `id`), "
-                                  "or a parameter named like an argument this builder adds itself (`content_type`, `body`, `files`), give `def f(self, x, x)`: the endpoint, mock and client "
-                                  "modules do not compile", fn.loc(apps[0]))
+                owner = f"{mod.name}:{fn.cls.name}" if fn.cls is not None else fn.fq
+                per_owner.setdefault(owner, []).append((fn, lp, apps[0], probed))
+    for owner, items in sorted(per_owner.items()):
+        bad = [(f_, lp_, a_) for f_, lp_, a_, ok_ in items if not ok_]
+        f0 = items[0][0]
+        sub = f"{f0.module.relpath}:{owner.split(':')[-1]} argument names built from `<op>.parameters`"
+        if not bad:
+            rep.ok(rule, sub, f"{len(items)} loop(s): the derived name is tested against the names already used before it is appended", f0.loc(items[0][1]))
+        else:
+            f_, lp_, a_ = bad[0]
+            rep.violation(rule, sub, f"{owner}|signature-builder-without-decollision",
+                          f"`{norm(a_)[:70]}` ({len(bad)} loop(s): {', '.join(sorted({x[0].name for x in bad}))}): the argument name is the sanitised parameter name as it is - two parameters "
+                          "that sanitise alike (path `id` + query `id`), or a parameter named like an argument this builder adds itself (`content_type`, `body`, `files`), give "
+                          "`def f(self, x, x)`: the endpoint, mock and client modules do not compile", f_.loc(a_))
     if n == 0:
         rep.ok(rule, "visit/endpoint signature builders", "no function builds argument names from `op.parameters` on its own (all go through the parameter processor)", "src/pyopenapi_gen/visit/endpoint:1")
